@@ -1285,6 +1285,8 @@ func TestVerifC12(t *testing.T) {
 		nodeFaults: true, linkModes: []string{"drop", "hold", "dup"},
 		crashPoints: []string{"save-before", "save-after", "apply-after"},
 	}
+	// C12_DEPTH_<system> / C12_DEV_<system> override a bound while developing (the bound actually
+	// used is what the evidence records); C12_TRACE=1 prints every delivery and pass of a replay.
 	dbg := func(name string, def int) int {
 		if v, err := strconv.Atoi(os.Getenv(name)); err == nil {
 			return v
@@ -1306,14 +1308,14 @@ func TestVerifC12(t *testing.T) {
 		specs = append(specs, sysSpec{cfg: c, depth: dbg("C12_DEPTH_"+name, depth), dev: dbg("C12_DEV_"+name, dev), maxStates: 8000000})
 	}
 	// dev0: faultless network, long sequences of client / timer / operator / crash events
-	add("dev0", ev.Pick(r, 5, 8), 0, func(c *c12Cfg) {
+	add("dev0", ev.Pick(r, 5, 7), 0, func(c *c12Cfg) {
 		c.leadTargets, c.compactNodes = all, all
 		c.maxProposals, c.maxCrashes = 3, ev.Pick(r, 1, 2)
 	})
 	// dev1: every single deviation of every kind at every position
-	add("dev1", ev.Pick(r, 3, 5), 1, func(c *c12Cfg) { c.maxProposals = ev.Pick(r, 2, 3) })
+	add("dev1", ev.Pick(r, 3, 4), 1, func(c *c12Cfg) { c.maxProposals = ev.Pick(r, 2, 3) })
 	// election: leadership change under node faults and lossy / slow links (no compaction, no crash)
-	add("election", ev.Pick(r, 4, 5), ev.Pick(r, 1, 2), func(c *c12Cfg) {
+	add("election", 4, ev.Pick(r, 1, 2), func(c *c12Cfg) {
 		c.maxCompacts, c.maxCrashes, c.crashPoints = 0, 0, nil
 		c.linkModes = ev.Pick(r, []string{"drop", "hold"}, []string{"drop", "hold", "dup"})
 	})
@@ -1327,14 +1329,17 @@ func TestVerifC12(t *testing.T) {
 		c.crashPoints = ev.Pick(r, []string{"save-after"}, []string{"save-before", "save-after", "apply-after"})
 	})
 	if th {
-		// dev2 / dev3: every pair / triple of deviations of every kind
-		add("dev2", 4, 2, nil)
+		// dev2: every pair of deviations of every kind
+		add("dev2", 3, 2, nil)
+		// dev3: every triple of {node fault, dropped link, crash after a save}
 		add("dev3", 3, 3, func(c *c12Cfg) {
-			c.linkModes = []string{"drop", "hold"}
-			c.crashPoints = []string{"save-after", "apply-after"}
+			c.maxCompacts = 0
+			c.linkModes = []string{"drop"}
+			c.crashPoints = []string{"save-after"}
+			c.crashNodes = n12
 		})
 		// msg1: per-message instead of per-link deviations
-		add("msg1", 4, 1, func(c *c12Cfg) { c.linkModes = nil; c.msgDev = true })
+		add("msg1", 3, 1, func(c *c12Cfg) { c.linkModes = nil; c.msgDev = true })
 	}
 	if th {
 		// pebble: the same protocol over the Pebble-backed raft log store (pebble_store.go,
@@ -1345,7 +1350,7 @@ func TestVerifC12(t *testing.T) {
 			return
 		}
 		defer penv.close()
-		add("pebble", 4, 1, func(c *c12Cfg) {
+		add("pebble", 3, 1, func(c *c12Cfg) {
 			c.pebble = penv
 			c.campaign, c.nodeFaults = false, false
 			c.compactNodes = []multiraft.NodeID{1}
@@ -1364,26 +1369,6 @@ func TestVerifC12(t *testing.T) {
 		c.linkModes = []string{"drop", "hold"}
 	})
 
-	if dump := os.Getenv("C12_DUMP"); dump != "" {
-		cfg := &specs[0].cfg
-		for i, path := range strings.Split(dump, "|") {
-			in := c12New(cfg, g)
-			for _, e := range strings.Split(path, ";") {
-				e = strings.TrimSpace(e)
-				if e == "" {
-					continue
-				}
-				obs, err := in.Apply(e, nil)
-				fmt.Println("DUMP", i, e, "->", obs, err)
-			}
-			f, _ := os.Create(fmt.Sprintf("/tmp/c12-dump-%d.txt", i))
-			w := bufio.NewWriter(f)
-			in.writeState(w)
-			w.Flush()
-			f.Close()
-		}
-		return
-	}
 	results := map[string]mc.Result{}
 	for i := range specs {
 		sp := &specs[i]
